@@ -129,6 +129,24 @@ func InstallFaults(f *Fed, faults []FaultSpec, barrier int) *FaultLog {
 							return nil, graphql.ErrorList{&graphql.Error{Message: "injected-with-null"}}, true
 						}
 						return map[string]interface{}{"node": nil}, graphql.ErrorList{&graphql.Error{Message: "injected-with-null", Path: []interface{}{"node"}}}, true
+					case "join-null-element+error":
+						// one element of the list at a join is null, with an error whose path names the element
+						doc, errs := gqlparser.LoadQuery(s.Schema, in.Query)
+						if errs != nil {
+							return nil, nil, false
+						}
+						data, _ := Exec(s.Schema, s.Store, doc, in.OperationName, in.Variables)
+						if malformAt(data, fs.Path, fs.Kind, !isRootCall(in)) {
+							fl.Failures++
+							fl.Errors++
+							fl.AtJoin++
+							path := []interface{}{}
+							for _, p := range fs.Path {
+								path = append(path, p)
+							}
+							return data, graphql.ErrorList{&graphql.Error{Message: "injected-at-join: the element could not be resolved", Path: append(path, 0)}}, true
+						}
+						return nil, nil, false
 					case "join-null+error":
 						// the usual way a server reports a field it could not resolve: null where the field belongs — here
 						// exactly where a dependent step joins — and an error saying why
@@ -225,6 +243,14 @@ func malformAt(data map[string]interface{}, path []string, kind string, underNod
 		if i < len(path)-1 {
 			cur = obj[key]
 			continue
+		}
+		if kind == "join-null-element+error" {
+			l, ok := obj[key].([]interface{})
+			if !ok || len(l) == 0 || l[0] == nil {
+				return false
+			}
+			l[0] = nil
+			return true
 		}
 		if kind == "join-null+error" {
 			if obj[key] == nil {
